@@ -61,7 +61,8 @@ def cases(tier, seed, info):
     m = 40 if tier == 'quick' else 6000
     kinds = ['list', 'all', 'count', 'plid', 'src', 'srcex', 'id', 'bmcid', 'listhex', 'allrev', 'listext',
              'delete', 'delete', 'deleteall', 'json', 'jsonout', 'jsonclean', 'jsoncleanext', 'jsoncleanext', 'jsonext',
-             'file', 'fileclean', 'filehex',
+             'file', 'fileclean', 'filehex', 'emptypath_deleteall', 'emptypath_delete', 'emptypath_json',
+             'dotdot_deleteall', 'dotdot_delete',
              'list+deleteall', 'count+delete', 'deletebadid', 'all+deleteall', 'plid+delete']
     tops = ['p1', 'p1b', 'p2', 'p3', 'j1', 'o1']
     for k in range(m):
@@ -269,6 +270,13 @@ def argv_for(c, root, names, rng):
         # restricted to one extension: the other files of the directory are none of this run's business
         'jsoncleanext': base + ['-j', '-o', os.path.join(root, 'out'), '-c', '-e', rng.choice(['.pel', '.pel', '.bin', '.txt', ''])],
         'jsonext': base + ['-j', '-e', rng.choice(['.pel', '.bin'])],
+        # no directory named at all (an empty string - an unset variable in a script): nothing is done anywhere, not
+        # in the current directory either (the run stands in the tree's root, next to files that would qualify)
+        'emptypath_deleteall': ['-p', '', '-D'], 'emptypath_delete': ['-p', '', '-d', idstr],
+        'emptypath_json': ['-p', '', '-j', '-c'],
+        # a path through a symbolic link and back up: <root>/lnk/.. is where the link POINTS to, one level up - not <root>
+        'dotdot_deleteall': ['-p', os.path.join(root, 'lnk', '..', 'pels'), '-D'],
+        'dotdot_delete': ['-p', os.path.join(root, 'lnk', '..', 'pels'), '-d', idstr],
         'file': ['-f', f], 'fileclean': ['-f', f, '-c'], 'filehex': ['-f', f, '-x'],
         'list+deleteall': base + ['-l', '-D'], 'all+deleteall': base + ['-D', '-a', '-E'],
         'count+delete': base + ['-n', '-d', idstr], 'plid+delete': base + ['--plid', idstr, '-d', idstr],
@@ -297,9 +305,15 @@ def run_case(case):
     top = os.path.join(seams.scratch_dir('c11'), 't')
     shutil.rmtree(top, ignore_errors=True)
     root = os.path.join(top, rng.choice(['tree', 'tree', 'case_%08X' % IDS[rng.choice([1, 2, 4, 5])],
-                                         '%08X' % IDS[rng.choice([1, 3])]]))
+                                         '%08X' % IDS[rng.choice([1, 3])], 'logs [site 7]', 'pels[0]', 'a*b q?']))
     os.makedirs(root)
     names, eids = build_tree(root, case['tree0'], rng, case.get('extra', 0))
+    # the run stands in the tree's root: files there (a log named after an id among them) are watched as well
+    seams.write_file(os.path.join(root, '2023_%08X_in_cwd' % IDS[1]), _pel(IDS[1]))
+    seams.write_file(os.path.join(root, 'cwd_notes.txt'), b'keep me too\n')
+    os.makedirs(os.path.join(root, 'elsewhere', 'sub'), exist_ok=True)
+    os.symlink(os.path.join(root, 'elsewhere', 'sub'), os.path.join(root, 'lnk'))
+    os.chdir(root)
     recs = []
     before = snapshot(root, eids)
     for step, c in enumerate(case['cmds']):
@@ -316,6 +330,7 @@ def run_case(case):
                          not_found=(res['out'] or '').strip() == 'PEL not found',
                          uncaught=bool(res['uncaught'])))
         before = after
+    os.chdir(top)
     shutil.rmtree(root, ignore_errors=True)
     return recs
 
